@@ -295,7 +295,7 @@ impl<const PW: u8, const GAIN: i8> ACore<PW, GAIN> {
             if let Some(fd) = cfg.fcnt_down {
                 inner.borrow_mut().net.ref_last = fd;
             }
-            Some(patched_session(cfg.fcnt_up, cfg.fcnt_down, cfg.adr_ack_cnt))
+            Some(patched_session_cfg(cfg))
         };
         let mut dev: ADev<PW, GAIN> = Device::new_with_session(make_region(cfg), ARadio(inner.clone()), ATimer(inner.clone()), rng.clone(), session);
         if class_c {
